@@ -131,23 +131,25 @@ def check(repo: Repo, rep: Report) -> None:
             # ALG-3
             for y in range(-2, H + 3):
                 for x in range(-2, W + 3):
-                    count["ALG-3"] += 1
-                    st, v = call(lambda: w.cw.method(fr, "vertex_neighbors")(y, x))
-                    if 0 <= y <= H and 0 <= x <= W:
-                        want_l = []
-                        if (y - 1, x) in vid:
-                            want_l.append(vid[(y - 1, x)])
-                        if (y, x) in vid:
-                            want_l.append(vid[(y, x)])
-                        if (y, x - 1) in hid:
-                            want_l.append(hid[(y, x - 1)])
-                        if (y, x) in hid:
-                            want_l.append(hid[(y, x)])
-                        got = sorted(ident(e) for e in v.attrs["data"]) if st == "ok" and isinstance(v, Obj) else None
-                        if got != sorted(want_l):
-                            res["ALG-3"] = res["ALG-3"] or f"frame {H}x{W}: vertex_neighbors({y}, {x}) gives {got if got is not None else (st, v)}, incident edges are {sorted(want_l)}"
-                    elif not (st == "raise" and v == "IndexError"):
-                        res["ALG-3"] = res["ALG-3"] or f"frame {H}x{W}: vertex_neighbors({y}, {x}) outside the lattice gives {st} instead of IndexError"
+                    for form in (0, 1):
+                        count["ALG-3"] += 1
+                        st, v = call(lambda: w.cw.method(fr, "vertex_neighbors")(*((y, x) if form == 0 else ((y, x),))))
+                        if 0 <= y <= H and 0 <= x <= W:
+                            want_l = []
+                            if (y - 1, x) in vid:
+                                want_l.append(vid[(y - 1, x)])
+                            if (y, x) in vid:
+                                want_l.append(vid[(y, x)])
+                            if (y, x - 1) in hid:
+                                want_l.append(hid[(y, x - 1)])
+                            if (y, x) in hid:
+                                want_l.append(hid[(y, x)])
+                            got = sorted(ident(e) for e in v.attrs["data"]) if st == "ok" and isinstance(v, Obj) else None
+                            if got != sorted(want_l):
+                                res["ALG-3"] = res["ALG-3"] or (f"frame {H}x{W}: vertex_neighbors{'((%d, %d))' % (y, x) if form else '(%d, %d)' % (y, x)} gives "
+                                                               f"{got if got is not None else (st, v)}, incident edges are {sorted(want_l)}")
+                        elif not (st == "raise" and v == "IndexError"):
+                            res["ALG-3"] = res["ALG-3"] or f"frame {H}x{W}: vertex_neighbors({y}, {x}) outside the lattice gives {st} instead of IndexError"
             # ALG-5 order
             count["ALG-5"] += 1
             order = [hid[(r, c)] for r in range(H + 1) for c in range(W)] + [vid[(r, c)] for r in range(H) for c in range(W + 1)]
